@@ -298,6 +298,10 @@ func (r *muxRun) dial(c int) bool {
 	}()
 	switch cl.beh {
 	case "silent", "late":
+	case "stalled":
+		// the length prefix and the first bytes of a binding request, then nothing: the frame never completes
+		part := frame(bindingRequest("u1:peer"))[:9]
+		go func() { _, _ = conn.Write(part) }()
 	case "earlyclose":
 		cl.st = "closed"
 		close(cl.sendq)
